@@ -99,6 +99,7 @@ class Obligation:
     model: dict = field(default_factory=dict)
     expect: str = "unsat"  # "unsat" (must hold) | "sat" (vacuity canary / cover: must be satisfiable)
     depends: tuple = ()    # oids of hint obligations whose goals were assumed for this one
+    n_hints: int = 0       # the last n_hints hypotheses are proved hints (tried first, alone, by the solver portfolio)
 
 
 class Ctx:
@@ -183,7 +184,7 @@ class Engine:
         if n:
             oid = f"{oid}#{n}"
         ob = Obligation(oid=oid, kind=kind, hyps=tuple(st.pc) + tuple(self.guard_stack) + tuple(hyps_extra), goal=goal, target=con.target,
-                        probes=dict(self.current_probes), note=note, expect=expect, depends=tuple(depends))
+                        probes=dict(self.current_probes), note=note, expect=expect, depends=tuple(depends), n_hints=len(hyps_extra))
         self.obligations.append(ob)
         return ob
 
